@@ -367,6 +367,7 @@ func traceFsHistories(r *evid.Run, pool *wproto.Pool, nHist int, mix fsTraceMix,
 				default:
 					ev.K = rp.Class // panic, hang
 				}
+				r.Count("fs_trace_mkdir_"+ev.K, 1)
 				ev.desc = fmt.Sprintf("mkdir(route=%s dry=%v exts=%v alias=%v) -> %s %q; directory now %v", route, dry, extStrings(exts, c), rq.Alias, ev.K, rp.Err, keysOf(j.snapshot()))
 				evs = append(evs, ev.fill())
 			default:
@@ -400,6 +401,7 @@ func traceFsHistories(r *evid.Run, pool *wproto.Pool, nHist int, mix fsTraceMix,
 				default:
 					ev.K = rp.Class
 				}
+				r.Count("fs_trace_verify_"+ev.K, 1)
 				ev.desc = fmt.Sprintf("verify(strict=%v route=%s) -> %s %q", strict, map[bool]string{true: "root", false: "md"}[rq.Route == "root"], ev.K, rp.Err)
 				evs = append(evs, ev.fill())
 			}
